@@ -167,6 +167,7 @@ func GenC04(seed, run uint64, ok CompileOK) *Scenario {
 	s.Docs = genDocs(r, r.Range(4, 26))
 	g := NewGen(r)
 	g.UseDocs(s.Docs)
+	g.StackPos = true
 	if r.Chance(1, 4) {
 		g.FocusFn = r.Pick(FocusFuncs) // swarm: a run about one function fed context-dependent arguments
 	}
@@ -561,6 +562,7 @@ func GenC05(seed, run uint64, ok CompileOK) *Scenario {
 	s.Docs = genDocs(r, r.Range(4, 22))
 	g := NewGen(r)
 	g.UseDocs(s.Docs)
+	g.StackPos = true
 	regexRun := r.Chance(1, 4)
 	if regexRun {
 		// swarm: a run about concurrent use of the regular-expression functions:
@@ -585,6 +587,17 @@ func GenC05(seed, run uint64, ok CompileOK) *Scenario {
 	s.Cfg.ColdProcess = r.Chance(1, 5)
 	compileStorm := r.Chance(1, 6) // a run about concurrent Compile / CompileWithNS calls only
 	if compileStorm {
+		if r.Chance(1, 2) {
+			s.Cfg.ColdProcess = true // half of the compile storms meet a package in which nothing was ever compiled
+		}
+		// texts with zero-argument function forms (the builder supplies their default argument)
+		for k := r.Range(0, 2); k > 0; k-- {
+			t := r.Pick([]string{"normalize-space()", "//*[normalize-space() = 'a']", "name()", "//a[name() = local-name()]",
+				"string-length(normalize-space())", "//*[position() = last()]", "concat(name(), '-', local-name())", "namespace-uri()"})
+			if ok == nil || ok(t) {
+				s.Exprs = append(s.Exprs, ExprSpec{Text: t})
+			}
+		}
 		s.Cfg.NS = r.Chance(1, 2)
 		s.Cfg.NSRebind = s.Cfg.NS && r.Chance(1, 2)
 		if s.Cfg.NS {
